@@ -6,6 +6,9 @@
 //	limits hand-written loop programs that drive every limit of the property to
 //	       its edge and one past it, and a matrix of integer operations at the
 //	       256-bit boundary;
+//	xscript caller programs (TRY/CATCH/FINALLY around loading another script,
+//	       repeated) x callee programs (statics, nested calls, THROW/RET, a
+//	       third script), loaded by a harness SYSCALL handler (xscript_test.go);
 //	deep   all sequences up to length L (5 quick, 6 thorough) over an alphabet
 //	       of 76 macro instructions that type-check against the observed
 //	       machine state (breadth first, merged by canonical machine state
@@ -29,6 +32,7 @@ import (
 	"time"
 
 	"github.com/nspcc-dev/neo-go/pkg/smartcontract/scparser"
+	"github.com/nspcc-dev/neo-go/pkg/util"
 
 	"verif/lib/vk"
 )
@@ -40,19 +44,26 @@ const (
 
 // replayRec is the detail of a violation and the input of --replay.
 type replayRec struct {
-	Part    string   `json:"part"`
-	Name    string   `json:"name,omitempty"`
-	Macros  []string `json:"macros,omitempty"`
-	Script  string   `json:"script_hex"`
-	Cfg     cfg      `json:"cfg"`
-	Correct bool     `json:"passes_IsScriptCorrect"`
-	Finding *finding `json:"finding"`
-	State   string   `json:"final_state"`
-	Steps   int      `json:"steps"`
-	Gas     int64    `json:"gas_consumed_datoshi"`
-	OwnPico int64    `json:"executed_prices_picogas"`
-	Err     string   `json:"vm_error,omitempty"`
-	Disasm  string   `json:"disasm,omitempty"`
+	Part    string    `json:"part"`
+	Name    string    `json:"name,omitempty"`
+	Macros  []string  `json:"macros,omitempty"`
+	Script  string    `json:"script_hex"`
+	Cfg     cfg       `json:"cfg"`
+	Correct bool      `json:"passes_IsScriptCorrect"`
+	Finding *finding  `json:"finding"`
+	State   string    `json:"final_state"`
+	Steps   int       `json:"steps"`
+	Gas     int64     `json:"gas_consumed_datoshi"`
+	OwnPico int64     `json:"executed_prices_picogas"`
+	Err     string    `json:"vm_error,omitempty"`
+	Disasm  string    `json:"disasm,omitempty"`
+	Loaded  []loadRec `json:"loadable_scripts,omitempty"` // xscript part: what the harness's SYSCALL handler loads (index = low byte of the syscall id)
+}
+
+type loadRec struct {
+	Script string `json:"script_hex"`
+	Hash   string `json:"hash_le"`
+	Disasm string `json:"disasm"`
 }
 
 // local: per-worker counters (kept in the worker's walker, merged under the
@@ -169,7 +180,7 @@ func (s *stats) outcomeMap() map[string]int64 {
 // violation, at the end of the run (flush); the others are counted. The key is
 // <what>:<site>:<part>:<input>:<gas>, so a known finding can be listed as
 // "<what>:<site>:*".
-func (s *stats) report(part, name string, macros []string, script []byte, c cfg, correct bool, res *result) {
+func (s *stats) report(part, name string, macros []string, script []byte, c cfg, correct bool, res *result, tbl []loaded) {
 	if res.F == nil {
 		return
 	}
@@ -186,8 +197,14 @@ func (s *stats) report(part, name string, macros []string, script []byte, c cfg,
 	}
 	class := res.F.Kind + ":" + res.F.Site
 	key := fmt.Sprintf("%s:%s:%s:%s", class, part, id, g)
+	if part == "xscript-leftover" { // a family of its own: its findings must not stand in for (or hide behind) those of other parts
+		class += ":" + part
+	}
 	rec := replayRec{Part: part, Name: name, Macros: macros, Script: hex.EncodeToString(script), Cfg: c, Correct: correct,
 		Finding: res.F, State: res.State, Steps: res.Steps, Gas: res.Gas, OwnPico: res.OwnPico, Err: res.Err, Disasm: disasm(script)}
+	for _, l := range tbl {
+		rec.Loaded = append(rec.Loaded, loadRec{Script: hex.EncodeToString(l.script), Hash: l.hash.StringLE(), Disasm: disasm(l.script)})
+	}
 	s.mu.Lock()
 	defer s.mu.Unlock()
 	if s.found == nil {
@@ -255,7 +272,7 @@ func (s *stats) fullCheck(part, name string, macros []string, script []byte, bas
 	c0 := cfg{Gas: -1, Base: base, MaxSteps: budget}
 	r0 = exec(script, c0, opts)
 	l.note(&r0)
-	s.report(part, name, macros, script, c0, correct, &r0)
+	s.report(part, name, macros, script, c0, correct, &r0, opts.tbl)
 	l.outcome(part, c0, -1, r0.State)
 	opts.mark, opts.onMark = -1, nil
 	var limits [5]int64
@@ -293,7 +310,7 @@ func (s *stats) fullCheck(part, name string, macros []string, script []byte, bas
 			if rs.State == "BUDGET" && rs.F == nil {
 				rs.F = &finding{Kind: "no-termination-under-finite-gas", Site: "at-end", Step: rs.Steps, Msg: fmt.Sprintf("%d instructions executed under a limit of %d datoshi", rs.Steps, lim)}
 			}
-			s.report(part, name, macros, script, c, correct, &rs)
+			s.report(part, name, macros, script, c, correct, &rs, opts.tbl)
 			l.outcome(part, c, need, rs.State)
 		}
 		if stepped && rs.State != "HALT" && rs.State != "FAULT" {
@@ -303,7 +320,7 @@ func (s *stats) fullCheck(part, name string, macros []string, script []byte, bas
 		rr := exec(script, c, opts)
 		l.execs++
 		l.notes += int64(rr.Notes)
-		s.report(part, name, macros, script, c, correct, &rr)
+		s.report(part, name, macros, script, c, correct, &rr, opts.tbl)
 		l.outcome(part, c, need, rr.State)
 		if stepped && (rr.State != rs.State || rr.Gas != rs.Gas) {
 			l.runStepDiff++
@@ -396,6 +413,10 @@ func TestCheck(t *testing.T) {
 	tLimits := time.Since(t0).Seconds()
 
 	t0 = time.Now()
+	xo := xscriptPart(s, vk.Pick(r, []int{1, 2, 9}, []int{1, 2, 3, 4, 5, 6, 7, 8, 9}))
+	tX := time.Since(t0).Seconds()
+
+	t0 = time.Now()
 	nRaw := rawPart(s, 0, 2)
 	tRaw := time.Since(t0).Seconds()
 
@@ -412,6 +433,7 @@ func TestCheck(t *testing.T) {
 		nRaw += rawPart(s, 3, 3)
 		tRaw += time.Since(t0).Seconds()
 	}
+	fmt.Printf("C12 %s: xscript %d callers x %d callees = %d programs %.1fs\n", r.Tier, xo.callers, xo.callees, xo.programs, tX)
 	fmt.Printf("C12 %s: limits %d programs %.1fs | raw len<=%d %d scripts %.1fs | deep L=%d levels=%v states=%d programs=%d %.1fs | core L=%d levels=%v states=%d programs=%d %.1fs | execs=%d steps=%d\n",
 		r.Tier, nLimit, tLimits, rawLen, nRaw, tRaw, depth, d.levelSizes, d.states, d.programs, tDeep, coreDepth, dc.levelSizes, dc.states, dc.programs, tCore, s.tot.execs, s.tot.steps)
 
@@ -440,53 +462,59 @@ func TestCheck(t *testing.T) {
 	inputsPerClass := s.flush()
 	outcomes := s.outcomeMap()
 	r.Finish(map[string]any{
-		"failing_inputs_per_class":      inputsPerClass,
-		"optional_deepening":            extra,
-		"states":                        d.states + dc.states + len(s.tot.sigs),
-		"transitions":                   int(s.tot.steps),
-		"traces_validated_against_impl": int(s.tot.execs),
-		"rule":                          "states = distinct canonical machine states of the deep passes (stacks, slots, compound graph with sharing, try/call brackets, hidden counters) + distinct run signatures elsewhere; transitions = VM instructions executed with the full oracle after each; traces = executions on the real VM",
-		"distinct_outcomes":             len(outcomes),
-		"outcomes":                      outcomes,
-		"raw_max_length":                rawLen,
-		"raw_scripts":                   int(nRaw),
-		"raw_gas_limits":                "unlimited, 0, 1, 3, need-1, need (datoshi; base price 1.2345 datoshi per unit), each stepped and with Run(); scripts faulting on their first instruction: unlimited and 0 only",
-		"limit_programs":                nLimit,
-		"limit_programs_missing_target": limitMiss,
-		"deep_depth":                    depth,
-		"deep_alphabet":                 len(macros),
-		"deep_level_sizes_after_merge":  d.levelSizes,
-		"deep_candidates_per_level":     d.levelCands,
-		"deep_programs_executed":        d.programs,
-		"deep_programs_not_halting":     d.faulted + dc.faulted,
-		"deep_mark_missed":              d.markMissed + dc.markMissed,
-		"deep_programs_failing_static":  int(s.tot.deepNotStatic),
-		"deep_states_with_sharing":      d.shared,
-		"deep_states_after_cycle":       d.cyclic,
-		"deep_states_in_call":           d.inCall,
-		"deep_states_in_try":            d.inTry,
-		"deep_witness_sequences":        d.witness,
-		"core_depth":                    coreDepth,
-		"core_alphabet":                 coreAlphabet,
-		"core_level_sizes_after_merge":  dc.levelSizes,
-		"core_candidates_per_level":     dc.levelCands,
-		"core_programs_executed":        dc.programs,
-		"core_states_with_sharing":      dc.shared,
-		"core_states_after_cycle":       dc.cyclic,
-		"core_states_in_call":           dc.inCall,
-		"core_states_in_try":            dc.inTry,
-		"scripts_passing_static_check":  int(s.tot.correct),
-		"runs_with_cycle":               int(s.tot.cyclic),
-		"runs_vm_counter_above_walk":    int(s.tot.over),
-		"run_vs_step_differences":       int(s.tot.runStepDiff),
-		"own_decoder_vs_static_check":   int(s.tot.decoderDiff),
-		"api_consistency_notes":         int(s.tot.notes),
-		"max_reachable_items_seen":      s.tot.maxWalk,
-		"max_invocation_depth_seen":     s.tot.maxInvoc,
-		"max_try_depth_seen":            s.tot.maxTry,
-		"wall_limits_raw_deep_core_s":   []float64{tLimits, tRaw, tDeep, tCore},
+		"failing_inputs_per_class":       inputsPerClass,
+		"optional_deepening":             extra,
+		"states":                         d.states + dc.states + len(s.tot.sigs),
+		"transitions":                    int(s.tot.steps),
+		"traces_validated_against_impl":  int(s.tot.execs),
+		"rule":                           "states = distinct canonical machine states of the deep passes (stacks, slots, compound graph with sharing, try/call brackets, hidden counters) + distinct run signatures elsewhere; transitions = VM instructions executed with the full oracle after each; traces = executions on the real VM",
+		"distinct_outcomes":              len(outcomes),
+		"outcomes":                       outcomes,
+		"raw_max_length":                 rawLen,
+		"raw_scripts":                    int(nRaw),
+		"raw_gas_limits":                 "unlimited, 0, 1, 3, need-1, need (datoshi; base price 1.2345 datoshi per unit), each stepped and with Run(); scripts faulting on their first instruction: unlimited and 0 only",
+		"xscript_callers":                xo.callers,
+		"xscript_callees":                xo.callees,
+		"xscript_programs":               xo.programs,
+		"xscript_scripts_failing_static": int(xo.notStatic),
+		"xscript_wall_s":                 tX,
+		"limit_programs":                 nLimit,
+		"limit_programs_missing_target":  limitMiss,
+		"deep_depth":                     depth,
+		"deep_alphabet":                  len(macros),
+		"deep_level_sizes_after_merge":   d.levelSizes,
+		"deep_candidates_per_level":      d.levelCands,
+		"deep_programs_executed":         d.programs,
+		"deep_programs_not_halting":      d.faulted + dc.faulted,
+		"deep_mark_missed":               d.markMissed + dc.markMissed,
+		"deep_programs_failing_static":   int(s.tot.deepNotStatic),
+		"deep_states_with_sharing":       d.shared,
+		"deep_states_after_cycle":        d.cyclic,
+		"deep_states_in_call":            d.inCall,
+		"deep_states_in_try":             d.inTry,
+		"deep_witness_sequences":         d.witness,
+		"core_depth":                     coreDepth,
+		"core_alphabet":                  coreAlphabet,
+		"core_level_sizes_after_merge":   dc.levelSizes,
+		"core_candidates_per_level":      dc.levelCands,
+		"core_programs_executed":         dc.programs,
+		"core_states_with_sharing":       dc.shared,
+		"core_states_after_cycle":        dc.cyclic,
+		"core_states_in_call":            dc.inCall,
+		"core_states_in_try":             dc.inTry,
+		"scripts_passing_static_check":   int(s.tot.correct),
+		"runs_with_cycle":                int(s.tot.cyclic),
+		"runs_vm_counter_above_walk":     int(s.tot.over),
+		"run_vs_step_differences":        int(s.tot.runStepDiff),
+		"own_decoder_vs_static_check":    int(s.tot.decoderDiff),
+		"api_consistency_notes":          int(s.tot.notes),
+		"max_reachable_items_seen":       s.tot.maxWalk,
+		"max_invocation_depth_seen":      s.tot.maxInvoc,
+		"max_try_depth_seen":             s.tot.maxTry,
+		"wall_limits_raw_deep_core_s":    []float64{tLimits, tRaw, tDeep, tCore},
 	}, []string{
-		"one script per VM, loaded with vm.Load, no syscall handler and no CALLT tokens (SYSCALL/CALLT fault): contexts of other scripts, whose evaluation stacks are separate, are not reached",
+		"raw, limits and deep parts: one script per VM, loaded with vm.Load, no syscall handler and no CALLT tokens (SYSCALL/CALLT fault)",
+		"xscript part: other scripts are loaded by a harness SYSCALL handler that mimics the contract-call interop (pops the arguments, LoadScriptWithHash or LoadScriptWithFlags, pushes the arguments onto the new stack); callee scripts come from a fixed family, nesting is at most caller -> callee -> third script",
 		"unlimited gas (limit -1) may legitimately not terminate; such runs stop at the instruction budget and are then re-run under finite limits only",
 		"BREAK cannot occur: the harness sets no breakpoints; any state other than NONE/HALT/FAULT after a step is reported",
 		"the exactness assertion (VM counter == walk) is switched off for the rest of a run once an APPEND/SETITEM inserts an item from which the container is reachable",
@@ -514,6 +542,18 @@ func replay(r *vk.Run, s *stats) {
 	if correct && decoded {
 		o.bounds = bounds
 	}
+	for _, l := range c.Loaded {
+		b, err1 := hex.DecodeString(l.Script)
+		h, err2 := util.Uint160DecodeStringLE(l.Hash)
+		if err1 != nil || err2 != nil {
+			fmt.Println("bad loadable script in replay")
+			continue
+		}
+		o.tbl = append(o.tbl, loaded{script: b, hash: h})
+	}
+	if o.tbl != nil {
+		o.boundsBy = loadedBounds(o.tbl)
+	}
 	outs := map[string]int{}
 	steps := 0
 	for i := 0; i < 5; i++ {
@@ -522,7 +562,7 @@ func replay(r *vk.Run, s *stats) {
 		k := "clean:" + res.State
 		if res.F != nil {
 			k = fmt.Sprintf("%s at step %d ip %d %s: %s", res.F.Kind, res.F.Step, res.F.IP, res.F.Op, res.F.Msg)
-			s.report(c.Part, c.Name, c.Macros, script, c.Cfg, correct, &res)
+			s.report(c.Part, c.Name, c.Macros, script, c.Cfg, correct, &res, o.tbl)
 		}
 		outs[k]++
 	}
